@@ -131,6 +131,13 @@ func (e *Engine) runHarness(cfg *HarnessCfg, pkg *ssa.Package) *HarnessResult {
 	defer sol.Close()
 	ex := &Exec{prog: e.prog, ctx: ctx, sol: sol, cfg: cfg, pkg: pkg, eng: e, res: res,
 		funcsSeen: map[string]bool{}, modelsHit: map[string]bool{}, stubsHit: map[string]bool{}}
+	if cfg.Interfere != "" {
+		ex.interfereFn = pkg.Func(cfg.Interfere)
+		if ex.interfereFn == nil {
+			res.Inconclusive = append(res.Inconclusive, "interference function not found: "+cfg.Interfere)
+			return res
+		}
+	}
 	fn := pkg.Func(cfg.Name)
 	if fn == nil {
 		res.Inconclusive = append(res.Inconclusive, "harness function not found: "+cfg.Name)
